@@ -626,7 +626,9 @@ def analyze(ctx, want):
     # =================================================================== advance_to (kinds)
     at = F.fn(r"FindMatchesImpl::<..>::advance_to$")
     ctx.analysed_fn(at)
-    ex, paths = run_fn(at, F, Model(), inline=r"FindMatchesImpl::<..>::offset$")   # the accessor is last_position + offset
+    # (the accessor is last_position + offset; a loop body that calls record_line_offset for the consumed char is the same
+    # bookkeeping, written once: looked through)
+    ex, paths = run_fn(at, F, Model(), inline=r"FindMatchesImpl::<..>::(offset|record_line_offset)$")
     env = {"abs_params": ("position",)}
     n_cmp = 0
     seen_cmp = set()
@@ -642,9 +644,9 @@ def analyze(ctx, want):
                 ob("C10.a", "advance_to:comparison-kinds:" + c[1], ka == kb and ka is not None and ka in (REL, ABS),
                    "compares %s (%s) with %s (%s): the public position is absolute, cursor positions are relative to the offset" % (
                        S.vstr(c[2]), kname(ka), S.vstr(c[3]), kname(kb)), at.loc())
-        for pu in p.calls(r"Vec::<usize>::push$"):
-            k = kind(pu[3][1], env)
-            ob("C09.d", "advance_to:recorded-line-start-absolute", k == ABS, "pushes line start %s (%s)" % (S.vstr(pu[3][1]), kname(k)), at.loc(pu[1]))
+        for val_, bb_ in recorded_line_starts(ex, p):
+            k = kind(val_, env)
+            ob("C09.d", "advance_to:recorded-line-start-absolute", k == ABS, "records line start %s (%s)" % (S.vstr(val_), kname(k)), at.loc(bb_))
         if p.end[0] == "return":
             k = kind(p.end[1], env)
             ob("C10.a", "advance_to:returns-absolute-position", k in (ABS, BASE), "returns %s (%s; must be a position in the haystack: Abs, or Base when nothing was consumed)" % (S.vstr(p.end[1]), kname(k)), at.loc())
@@ -664,7 +666,7 @@ def analyze(ctx, want):
         ob("C09.c", "advance_to:consumes-own-cursor", own and len(nx) == 1, "cursor.next() on %s" % [e[2] for e in nx], at.loc())
         items = [c for c, o in p.conds]
         nl = newline_tests(p.conds)
-        pushes = p.calls(r"Vec::<usize>::push$")
+        pushes = [(None, None, None, (None, v_)) for v_, _ in recorded_line_starts(ex, p)]     # (same shape as call events: x[3][1] is the value)
         got_item = any(e[0] == "write" and e[2][0] == "local" and e[4][0] == "field" and e[4][1][0] == "sym" and e[4][1][1].startswith("ci_item@") for e in p.events)
         if not got_item:
             continue  # exhausted on the first next()
@@ -735,7 +737,7 @@ def analyze(ctx, want):
                "last_position := %s" % (S.vstr(lp) if lp else None), at.loc())
     # merge is called when (and only when) something was collected
     for p in ret_paths(paths):
-        mg = p.calls(r"merge_line_offsets$")
+        mg = p.calls(r"merge_line_offsets(::<.*>)?$")
         emp = [(c, o) for c, o in p.conds if c[0] == "app" and re.search(r"Vec::<usize>::is_empty$", c[1])]
         if emp:
             ob("C09.b", "advance_to:collected-line-starts-are-merged", (emp[-1][1] is False) == (len(mg) == 1),
@@ -777,7 +779,7 @@ def analyze(ctx, want):
     seen_nl = set()
     for p in rp:
         nl = newline_tests(p.conds)
-        mg = p.calls(r"merge_line_offsets$")
+        mg = p.calls(r"merge_line_offsets(::<.*>)?$")
         ws = {field_path(w[1]): w[2] for w in heap_writes(p) if w[0] == ("sym", "self")}
         if not nl:
             ob("C09.c", "record_line_offset:tests-last-char-for-newline", False, "no newline test on a path", rl.loc())
@@ -786,7 +788,7 @@ def analyze(ctx, want):
         ob("C09.c", "record_line_offset:newline-test-on-last_char", S.vstr(c) == "self.last_char", "tests %s" % S.vstr(c), rl.loc())
         seen_nl.add(o)
         if o is True:
-            ok = len(mg) == 1 and mg[0][3][1][0] == "vec" and mg[0][3][1][1] == (("sym", "i"),)
+            ok = len(mg) == 1 and single_element(ex.deref_val(p, mg[0][3][1]) if mg[0][3][1][0] == "ref" else mg[0][3][1]) == ("sym", "i")
             ob("C09.d", "record_line_offset:records-the-given-offset-after-newline", ok, "merge_line_offsets(%s)" % [S.vstr(x[3][1]) for x in mg], rl.loc())
         else:
             ob("C09.c", "record_line_offset:no-record-without-newline", not mg, "merge without newline", rl.loc())
@@ -1021,6 +1023,29 @@ def analyze(ctx, want):
                 nx = p.calls(r"iter::Iterator>::next$")
                 ok = len(nx) == 1 and "self.iter" in S.vstr(nx[0][3][0])
                 ob("C09.e", "with_positions:one-token-taken-from-the-wrapped-iterator", ok, "calls %s" % [M.short_name(x[2]) for x in p.calls(".")], fn.loc())
+
+
+def single_element(v):
+    """x if v is a one-element batch of line starts: vec![x], [x], std::iter::once(x), Some(x)"""
+    if v[0] in ("vec", "array") and len(v[1]) == 1:
+        return v[1][0]
+    if v[0] == "app" and re.search(r"iter::once(::<.*>)?$|iter::sources::once::once", str(v[1])) and len(v[2]) == 1:
+        return v[2][0]
+    if v[0] == "adt" and v[2] == "Some" and len(v[3]) == 1:
+        return v[3][0]
+    return None
+
+
+def recorded_line_starts(ex, p):
+    """[(value, bb)] the line starts a path records: pushed to a local batch (merged later) or merged one at a time"""
+    out = [(pu[3][1], pu[1]) for pu in p.calls(r"Vec::<usize>::push$")]
+    for mg in p.calls(r"merge_line_offsets(::<.*>)?$"):
+        a = mg[3][1]
+        a = ex.deref_val(p, a) if a[0] == "ref" else a
+        x = single_element(a)
+        if x is not None:
+            out.append((x, mg[1]))
+    return out
 
 
 def col_ok(col, idx, delta):
